@@ -156,6 +156,17 @@ CHECKS["C15"] = dict(
     ref="DESIGN.md section 4, C15",
 )
 
+CHECKS["C16"] = dict(
+    category="model_checking",
+    technique="exhaustive enumeration of module partitions x import placements x link histories (every subset and order of AddModule) on the real compiler, loader and linker, against the single-module program",
+    text="Every partition of six small call-DAG programs into <=3 modules with an acyclic import graph is compiled separately, stored and "
+         "linked through every history of AddModule calls (every order, every set of explicitly added modules) with a counting loader; "
+         "symbol tables, load counts, VM behaviour and order independence are compared with the single-module compilation; duplicate "
+         "definitions must be rejected.",
+    note="Trusted: the single-module compilation as oracle. States = prefixes of link histories on the real Linker; every history is executed on the implementation.",
+    ref="DESIGN.md section 4, C16",
+)
+
 PENDING = {}
 
 
